@@ -707,6 +707,67 @@ LIBM[('opaque:EngineApp', 'handle_request')] = _engine_handle_request
 OPAQUE_CALL['WSGIApplication'] = _wsgi_app_call
 
 
+# ---- ASGI server callables (assumed: receive() yields an event dict with a 'type'; send(msg)
+# delivers msg; both are yield points) -------------------------------------------------------------
+def _asgi_receive(eng, st, f, args, kwargs, line):
+    s2 = st.copy()
+    advance_clock(eng, s2, None)
+    t = z3.String(eng.name('asgi_event'))
+    eng.inputs[str(t)] = t
+    yield s2, V(REC, {'type': vstr(t)})
+
+
+def _asgi_send(eng, st, f, args, kwargs, line):
+    """send(message): the message type is appended to the ghost `asgi_log`; the status of a
+    response.start message to `asgi_status`; the value of its first header to `asgi_ctype`."""
+    m = args[0]
+    if m.ty.kind != 'rec' or 'type' not in m.t:
+        raise core.EngineError('ASGI send of a non-literal message at line %d' % line)
+    s2 = st.copy()
+    advance_clock(eng, s2, None)
+    g = s2.ghost
+    g['asgi_log'] = V(List(STR), z3.Concat(g['asgi_log'].t, z3.Unit(m.t['type'].t)))
+    eng._wrote(s2, ('ghost', 'asgi_log'))
+    if 'status' in m.t:
+        g['asgi_status'] = V(List(INT), z3.Concat(g['asgi_status'].t,
+                                                  z3.Unit(eng.coerce(m.t['status'], INT).t)))
+        eng._wrote(s2, ('ghost', 'asgi_status'))
+    if 'headers' in m.t:
+        h = m.t['headers']
+        if h.ty.kind != 'pylist' or len(h.t) != 1 or h.t[0].ty.kind != 'tup':
+            raise core.EngineError('ASGI headers of unexpected shape at line %d' % line)
+        name, val = h.t[0].t
+        g['asgi_ctype'] = V(List(BYTES), z3.Concat(
+            g['asgi_ctype'].t, z3.Unit(name.t), z3.Unit(eng.coerce(val, BYTES).t)))
+        eng._wrote(s2, ('ghost', 'asgi_ctype'))
+    yield s2, VNONE
+
+
+def _lifespan_callback(eng, st, f, args, kwargs, line):
+    """on_startup / on_shutdown: arbitrary application code - returns or raises."""
+    s2 = st.copy()
+    advance_clock(eng, s2, None)
+    g = s2.ghost
+    g['callbacks'] = V(INT, g['callbacks'].t + 1)
+    eng._wrote(s2, ('ghost', 'callbacks'))
+    s3 = s2.copy()
+    s3.ghost['cb_raised'] = V(INT, s3.ghost['cb_raised'].t + 1)
+    eng._wrote(s3, ('ghost', 'cb_raised'))
+    yield s2, VNONE
+    yield s3, R('AnyException', line)
+
+
+OPAQUE_CALL['AsgiReceive'] = _asgi_receive
+OPAQUE_CALL['AsgiSend'] = _asgi_send
+OPAQUE_CALL['LifespanCallback'] = _lifespan_callback
+
+
+@libfn('asyncio.iscoroutinefunction')
+def _iscorofn(eng, st, args, kwargs, line):
+    b = z3.Bool(eng.name('iscoro'))
+    yield st, vbool(b)
+
+
 @libfn('open')
 def _open(eng, st, args, kwargs, line):
     s2 = st.copy()
